@@ -403,10 +403,20 @@ def run(ctx):
     check_get_extrema(ctx, db)
     check_apply_repetition(ctx, db)
     check_transform(ctx, db)
+    # copies made by apply_repetition are built with the element's copy_from: every field copied from the same field
+    from .. import copyrule
+    from . import C06
+    n = 0
+    for qn, rect, exempt, shallow in C06.COPY_TARGETS[:5]:
+        f = db.fn(qn)
+        ctx.touch(f)
+        src = f.params[0]
+        n += copyrule.check_copy(ctx, db, 'R-COPY', qn, f.loc(), rect, f.body, 'this', 'v%d:%s' % (src['d'], src['n']), exempt, shallow)
+    ctx.require('R-COPY element fields', n, 40)
 
 
 MANIFEST = dict(
-    text='Decides structural necessary conditions for all repetition kinds: exhaustive kind coverage in every consumer; get_offsets writes the zero vector first and exactly get_count() vectors per kind; get_extrema returns exactly the lattice corners for each columns/rows degeneracy combination (symbolic corner algebra) and keeps a consistent running min/max for explicit kinds; the five apply_repetition bodies are one clone family with clear() dominating every copy and count-1 copies from the second offset; Repetition::transform depends, on every one of the 8 parameter valuations and for every kind, on each non-neutral parameter (path enumeration over predicate atoms), and retags exactly when the kind cannot represent the image. Numeric values of offsets/extremes are not decided.',
+    text='Decides structural necessary conditions for all repetition kinds: exhaustive kind coverage in every consumer; get_offsets writes the zero vector first and exactly get_count() vectors per kind; get_extrema returns exactly the lattice corners for each columns/rows degeneracy combination (symbolic corner algebra) and keeps a consistent running min/max for explicit kinds; the five apply_repetition bodies are one clone family with clear() dominating every copy and count-1 copies from the second offset, and the five element copy_from functions they use copy every field from the same field of the source (owning fields through their copier); Repetition::transform depends, on every one of the 8 parameter valuations and for every kind, on each non-neutral parameter (path enumeration over predicate atoms), and retags exactly when the kind cannot represent the image. Numeric values of offsets/extremes are not decided.',
     note='Trusted: clang front end, gx, sa rules; exemption: ExplicitX is invariant under x-reflection (stated in the checker). Corner algebra recognises Vec2{a,b}, k*v, v+w and single-initialiser locals only; anything else is reported as uninterpretable (violation naming the expression).',
     technique='enum exhaustiveness + symbolic per-arm evaluation + predicate-atom path enumeration (dependence) + clone families',
     design='§4 C11')
